@@ -121,6 +121,14 @@ func (timeoutErr) Temporary() bool { return true }
 // chunkReader hands out data cut at the given byte offsets (ascending, 0 < c < len);
 // term: "eof" (0,EOF after the data), "dataeof" (last piece together with EOF),
 // "datatimeout" (last piece together with a timeout error), "timeout" (0,timeout).
+//
+// A read timeout does not end the byte stream: input.TimeoutConn (the conn the TCP
+// listener hands to the handler) arms a fresh deadline on every Read, so a Read issued
+// after the one that timed out succeeds as soon as the peer has sent more.  With a
+// tail, the reader behaves like that: the timeout error is returned once, reads issued
+// after it get the tail and then EOF (the peer closed).  Without a tail later reads
+// fail with the same error (a few times, then EOF).  The reader only counts what was asked of it after
+// the error (afterErr, tailRead); whether the handler may do that is not decided here.
 type chunkReader struct {
 	data []byte
 	cuts []int
@@ -128,11 +136,34 @@ type chunkReader struct {
 	ci   int
 	term string
 	err  error
+
+	tail     []byte
+	afterErr int // Read calls issued after a read had returned the terminating condition
+	tailRead int // bytes of the tail handed out
 }
 
 func (r *chunkReader) Read(p []byte) (int, error) {
 	if r.err != nil {
-		return 0, r.err
+		r.afterErr++
+		if r.err == io.EOF {
+			return 0, r.err
+		}
+		if r.tail == nil {
+			if r.afterErr > 3 { // a handler that keeps retrying: the peer closes eventually
+				r.err = io.EOF
+			}
+			return 0, r.err
+		}
+		if len(p) == 0 {
+			return 0, nil
+		}
+		if r.tailRead == len(r.tail) {
+			r.err = io.EOF
+			return 0, r.err
+		}
+		n := copy(p, r.tail[r.tailRead:])
+		r.tailRead += n
+		return n, nil
 	}
 	if len(p) == 0 {
 		return 0, nil
@@ -183,6 +214,9 @@ type lcase struct {
 	List  [][]int  `json:"list"`
 	Terms []string `json:"terms"`
 	Trans []string `json:"trans"` // plain | tcp | tcptimeout | udp | amqp
+	// hex, one per symbol: what the peer sends after the stream, served to reads issued after a
+	// timeout error (terms "timeout"/"datatimeout" and transport tcptimeout only)
+	Tail []string `json:"tail"`
 }
 
 type outcome struct {
@@ -193,6 +227,10 @@ type outcome struct {
 	Unstable int      `json:"unstable"`
 	Reused   int      `json:"reused"`
 	SlowMs   int      `json:"slow_ms"` // tcptimeout: longest dial-to-last-write time (guards the expectation, see c12.py)
+	// continuation after a read error (runs with this outcome)
+	TailRuns  int `json:"tail_runs"`  // runs in which a tail was on offer after the error
+	AfterErr  int `json:"after_err"`  // ... in which the handler issued a Read after the error / the client got to send the tail
+	TailBytes int `json:"tail_bytes"` // most tail bytes the handler took in one run
 }
 
 type lresult struct {
@@ -208,9 +246,24 @@ type agg struct {
 	m     map[string]*outcome
 	order []string
 	runs  int
+	last  *outcome
 }
 
 func newAgg() *agg { return &agg{m: map[string]*outcome{}} }
+
+// cont records, for the outcome the last add went to, what happened after the read error.
+func (a *agg) cont(offered bool, afterErr, tailBytes int) {
+	if !offered || a.last == nil {
+		return
+	}
+	a.last.TailRuns++
+	if afterErr > 0 {
+		a.last.AfterErr++
+	}
+	if tailBytes > a.last.TailBytes {
+		a.last.TailBytes = tailBytes
+	}
+}
 
 func (a *agg) add(s snap, err string, seg []int, slow ...int) {
 	a.runs++
@@ -226,6 +279,7 @@ func (a *agg) add(s snap, err string, seg []int, slow ...int) {
 		a.order = append(a.order, key)
 	}
 	o.N++
+	a.last = o
 	for _, ms := range slow {
 		if ms > o.SlowMs {
 			o.SlowMs = ms
@@ -396,6 +450,14 @@ func TestLines(t *testing.T) {
 			data = append(data, b...)
 			bounds = append(bounds, len(data))
 		}
+		var tail []byte
+		for _, fh := range c.Tail {
+			b, err := hex.DecodeString(fh)
+			if err != nil {
+				t.Fatalf("tail: %v", err)
+			}
+			tail = append(tail, b...)
+		}
 		for _, tr := range c.Trans {
 			switch tr {
 			case "plain":
@@ -403,10 +465,16 @@ func TestLines(t *testing.T) {
 					a := newAgg()
 					cp := &capture{}
 					h := input.NewPlain(cp)
+					isTmo := term == "timeout" || term == "datatimeout"
 					cutSets(&c, data, bounds, rng, func(cuts []int) {
 						d := append([]byte{}, data...) // the handler gets its own copy of the stream
-						err := h.Handle(&chunkReader{data: d, cuts: cuts, term: term})
+						cr := &chunkReader{data: d, cuts: cuts, term: term}
+						if isTmo && len(tail) > 0 {
+							cr.tail = append([]byte{}, tail...)
+						}
+						err := h.Handle(cr)
 						a.add(cp.take(), errClass(err), cuts)
+						a.cont(cr.tail != nil, cr.afterErr, cr.tailRead)
 					})
 					lg.Emit(lresult{"res", c.ID, tr, term, a.runs, a.list()})
 				}
@@ -446,11 +514,28 @@ func TestLines(t *testing.T) {
 					if tr == "tcp" {
 						conn.Close()
 					}
-					if !wait(connDone, tr, c.ID) {
+					ended, sent := false, 0
+					if tr == "tcptimeout" && len(tail) > 0 && werr == "" {
+						// the peer sends more after the server's read timeout must have struck.  A handler
+						// that returned at the timeout has ended the connection by then (nothing is sent);
+						// whatever the timing, the check accepts "stopped at the error" as well as "the whole
+						// stream, no error in between", so this wait decides nothing but the detection power
+						select {
+						case <-connDone:
+							ended = true
+						case <-time.After(readTimeout * 3 / 2):
+							if _, err := conn.Write(tail); err == nil {
+								sent = 1
+							}
+							conn.Close()
+						}
+					}
+					if !ended && !wait(connDone, tr, c.ID) {
 						dead = true
 					}
 					conn.Close()
 					a.add(cp.take(), werr, cuts, slow)
+					a.cont(tr == "tcptimeout" && len(tail) > 0, sent, sent*len(tail))
 				})
 				lg.Emit(lresult{"res", c.ID, tr, term, a.runs, a.list()})
 			case "udp":
